@@ -7,6 +7,7 @@
 import socket
 import sys
 import time
+import calendar
 
 try:
     # noinspection PyUnresolvedReferences
@@ -92,7 +93,8 @@ class HttpReader(AbstractReader):
 
             if response.code == 200:
                 try:
-                    mtime = time.mktime(time.strptime(response.getheader('Last-Modified'), "%a, %d %b %Y %H:%M:%S %Z"))
+                    # HTTP dates are GMT, not local wall-clock time
+                    mtime = calendar.timegm(time.strptime(response.getheader('Last-Modified'), "%a, %d %b %Y %H:%M:%S %Z"))
 
                 except Exception:
                     debug.logger & debug.flagReader and debug.logger('malformed HTTP headers: %s' % sys.exc_info()[1])
